@@ -215,6 +215,25 @@ class RefArchive:
             if i == start:
                 return None
 
+    def hash_entries(self, name):
+        """All (locale, platform, block index) entries stored for a name, in probe order."""
+        out = []
+        if self.hash_size == 0:
+            return out
+        mask = self.hash_size - 1
+        start = hash_string(name, HASH_OFFSET) & mask
+        a, b = hash_string(name, HASH_A), hash_string(name, HASH_B)
+        i = start
+        while True:
+            n1, n2, loc, plat, bi = self.hash[i]
+            if bi == HASH_NEVER_USED:
+                return out
+            if bi != HASH_DELETED and n1 == a and n2 == b:
+                out.append((loc, plat, bi))
+            i = (i + 1) & mask
+            if i == start:
+                return out
+
     def file_layout(self, name, use_plain_name=True):
         """(block index, pos, csize, fsize, flags, key) for a name, or None."""
         f = self.find(name)
@@ -368,7 +387,8 @@ def _compress_unit(data, method, zparams=None):
 
 
 class RefFile:
-    def __init__(self, name, data, method=0, encrypt=False, fix_key=False, single_unit=False, flags_extra=0, raw_stored=None, zparams=None):
+    def __init__(self, name, data, method=0, encrypt=False, fix_key=False, single_unit=False, flags_extra=0, raw_stored=None, zparams=None,
+                 sector_crc=False, locale=0, platform=0):
         self.name = name            # bytes or str: the name hashed into the hash table (and used for the key)
         self.data = bytes(data)
         self.method = method
@@ -378,6 +398,9 @@ class RefFile:
         self.flags_extra = flags_extra   # e.g. FLAG_PATCH_FILE
         self.raw_stored = raw_stored     # if set: store these bytes verbatim (used for patch entries)
         self.zparams = zparams           # see _compress_unit
+        self.sector_crc = sector_crc     # compressed multi-sector files only: offset table with one more entry + checksum sector behind the data
+        self.locale = locale             # hash-table entry fields (u16 each)
+        self.platform = platform
 
 
 def write_archive(files, version=1, shift=3, hash_size=None, prefix=0, user_data=False, deleted_probes=0,
@@ -442,11 +465,19 @@ def write_archive(files, version=1, shift=3, hash_size=None, prefix=0, user_data
             flags |= FLAG_COMPRESS
             nsec = (fsize + ss - 1) // ss
             units = [_compress_unit(f.data[i * ss:(i + 1) * ss], f.method, f.zparams) for i in range(nsec)]
-            offs = [4 * (nsec + 1)]
+            with_crc = bool(f.sector_crc) and not f.encrypt
+            offs = [4 * (nsec + 1 + (1 if with_crc else 0))]
             for u in units:
                 offs.append(offs[-1] + len(u))
-            tab = struct.pack("<%dI" % (nsec + 1), *offs)
             ul = [len(u) for u in units]
+            if with_crc:
+                # the published layout: one ADLER32 per sector (of the sector as stored), kept as one more "sector" behind the
+                # data and announced by one more offset-table entry; stored raw here (it may be compressed, it need not be)
+                flags |= FLAG_SECTOR_CRC
+                crc = struct.pack("<%dI" % nsec, *[zlib.adler32(u) & M32 for u in units])
+                units = units + [crc]
+                offs.append(offs[-1] + len(crc))
+            tab = struct.pack("<%dI" % len(offs), *offs)
             if f.encrypt:
                 tab = encrypt_bytes(tab, (key - 1) & M32)
                 units = [encrypt_bytes(u, (key + i) & M32) for i, u in enumerate(units)]
@@ -484,7 +515,7 @@ def write_archive(files, version=1, shift=3, hash_size=None, prefix=0, user_data
         i = hash_string(f.name, HASH_OFFSET) & mask
         while hash_tab[i][4] != HASH_NEVER_USED:
             i = (i + 1) & mask
-        hash_tab[i] = (hash_string(f.name, HASH_A), hash_string(f.name, HASH_B), 0, 0, bi)
+        hash_tab[i] = (hash_string(f.name, HASH_A), hash_string(f.name, HASH_B), f.locale & 0xFFFF, f.platform & 0xFFFF, bi)
         slots[bi] = i
     hvals = []
     for n1, n2, loc, plat, bi in hash_tab:
